@@ -51,8 +51,14 @@ simple!(Probe, |context, args| {
         .skip(1)
         .map(|a| match a.strip_prefix('@') {
             Some(f) => std::fs::read_to_string(wd.join(f)).unwrap_or_else(|_| "<missing>".into()),
-            // `%traps`: how many trap-handler frames are on the call stack right now
-            None if a == "%traps" => context.shell.call_stack().iter().filter(|f| f.frame_type.is_trap_handler()).count().to_string(),
+            // `%traps`: how many ERR-handler frames are on the call stack right now
+            None if a == "%traps" => context
+                .shell
+                .call_stack()
+                .iter()
+                .filter(|f| matches!(f.frame_type, brush_core::callstack::FrameType::TrapHandler(brush_core::traps::TrapSignal::Err)))
+                .count()
+                .to_string(),
             None => a.clone(),
         })
         .collect();
